@@ -216,6 +216,12 @@ func (h *hostEnv) delay(d time.Duration) {
 	}
 }
 
+// Blow panics: a method of an injected object that faults (nil map write)
+func (s *HostS) Blow(x int64) {
+	var m map[string]int64
+	m["x"] = x
+}
+
 var curHost *hostEnv
 
 var hostFields = []string{"I", "I8", "I16", "I32", "I64", "U", "U8", "U16", "U32", "U64", "F32", "F64", "Str", "B"}
